@@ -315,7 +315,7 @@ class Stringifier(Visitor):
         if o.else_body:
             values += [self.format_node('Default')]
         self.depth += self.style.indent_default
-        bodies = self.visit_all(*o.bodies, o.else_body, **kwargs)
+        bodies = self.visit_all((*o.bodies, o.else_body), **kwargs)
         self.depth -= self.style.indent_default
         self.depth -= self.style.indent_default
         body = [item for branch in zip(values, bodies) for item in branch]
@@ -344,7 +344,7 @@ class Stringifier(Visitor):
         if o.else_body:
             values += [self.format_node('Default')]
         self.depth += self.style.indent_default
-        bodies = self.visit_all(*o.bodies, o.else_body, **kwargs)
+        bodies = self.visit_all((*o.bodies, o.else_body), **kwargs)
         self.depth -= self.style.indent_default
         self.depth -= self.style.indent_default
         body = [item for branch in zip(values, bodies) for item in branch]
